@@ -22,11 +22,13 @@ CONSTANTS Order,      \* sequence of child names in hook order, e.g. <<"a","b","
           ChecksSet,  \* subset of BOOLEAN: status checks configured?
           Policies,   \* subset of {"fair","noOG","zeroOG","strOG","stuck"}: how children become healthy (zeroOG / strOG:
                       \* status.observedGeneration is 0 / not a number, which the code treats as "not reported")
+          GenSels,    \* subset of BOOLEAN: generateSelector (children are selected by a controller-uid label the controller adds itself)
           ScaleRevs,  \* subset of BOOLEAN: the revisioned field also decides the SET of children (revision 2 drops the last one)
           Variant,    \* "code" | "intended"
           MaxPert,    \* number of perturbations in a plan (besides the initial spec change)
           Rounds,     \* number of rounds
-          OwnConds    \* subset of BOOLEAN: the hook returns its own `Updated` condition
+          OwnConds    \* subset of {"none", "Unknown", "False"}: the hook returns its own `Updated` condition with that status
+                      \* ("False" is also the status of the conditions the rollout writes: only reason and message tell them apart)
 
 Kids   == { Order[i] : i \in DOMAIN Order }
 Pos(c) == CHOOSE i \in DOMAIN Order : Order[i] = c
@@ -39,8 +41,8 @@ First(S) == CHOOSE c \in S : \A d \in S : Pos(c) <= Pos(d)
 
 \* perturbations: [round, op, kid]
 PertOps == {"spec", "delkid", "scaledown", "scaleup", "nonrev"}
-VARIABLES rev, nonrev, names, kid, revs, cond, last, round, plan, method, checks, policy, owncond, scalerev, trace
-vars == <<rev, nonrev, names, kid, revs, cond, last, round, plan, method, checks, policy, owncond, scalerev, trace>>
+VARIABLES rev, nonrev, names, kid, revs, cond, last, round, plan, method, checks, policy, owncond, scalerev, gensel, trace
+vars == <<rev, nonrev, names, kid, revs, cond, last, round, plan, method, checks, policy, owncond, scalerev, gensel, trace>>
 
 Last0 == [moved |-> {}, gated |-> {}, gateOk |-> TRUE, firstNeeding |-> {}, writes |-> 0, oldOk |-> TRUE, nonrevOk |-> TRUE, sync |-> FALSE]
 \* perturbations happen while the rollout is in flight (rounds 2 .. 2 + 2 n)
@@ -58,7 +60,7 @@ Init ==
   /\ kid = [c \in Kids |-> NoKid] /\ revs = [r \in Revs |-> NoRev]
   /\ cond = "None" /\ last = Last0 /\ round = 0 /\ trace = <<>>
   /\ method \in Methods /\ checks \in ChecksSet /\ owncond \in OwnConds
-  /\ policy \in Policies /\ scalerev \in ScaleRevs
+  /\ policy \in Policies /\ scalerev \in ScaleRevs /\ gensel \in GenSels
   /\ \E n \in 0..MaxPert : \E p \in [1..n -> Perts] : plan = p /\ PlanOK(p)
 
 \* ---- one sync (a pure function of the state record s) -----------------------------------------
@@ -141,7 +143,7 @@ Round ==
          e == SyncEffect(p) IN
      /\ rev' = p.rev /\ nonrev' = p.nonrev /\ names' = p.names
      /\ round' = round + 1
-     /\ UNCHANGED <<plan, method, checks, policy, owncond, scalerev>>
+     /\ UNCHANGED <<plan, method, checks, policy, owncond, scalerev, gensel>>
      /\ revs' = e.revs /\ kid' = Heal(e.kid) /\ cond' = e.cond /\ last' = e.last
      /\ trace' = Append(trace, [cond |-> e.cond, moved |-> e.last.moved, gated |-> e.last.gated,
                                 claims |-> [r \in Revs |-> e.revs[r].names], live |-> { r \in Revs : e.revs[r].live },
@@ -171,7 +173,7 @@ C01_QuietWhenDone == [][(Done /\ round' > LastPert + 1) => (Done' => last'.write
 C07_StuckWaits == (policy = "stuck" /\ checks /\ round >= 4 /\ plan = <<>> /\ Len(Order) > 1) => cond # "OnLatest"
 
 Emit == (round = Rounds) =>
-  PrintT("SCN|" \o ToJson([order |-> Order, method |-> method, checks |-> checks, policy |-> policy, owncond |-> owncond, scalerev |-> scalerev, plan |-> plan,
+  PrintT("SCN|" \o ToJson([order |-> Order, method |-> method, checks |-> checks, policy |-> policy, owncond |-> owncond, scalerev |-> scalerev, gensel |-> gensel, plan |-> plan,
                            rounds |-> Rounds, trace |-> trace, done |-> Done, healthy |-> Healthy, lastPert |-> LastPert,
                            final |-> [rev |-> rev, nonrev |-> nonrev, names |-> Want(Cur)]]))
 =============================================================================
